@@ -18,7 +18,7 @@ FieldsOK == [version |-> "ok", dest |-> "ok", issuer |-> "ok", status |-> "ok"]
 Same == [kind : {"req"}, entry : {"req"}, version : {"ok", "absent", "wrong"}, dest : {"ok", "absent", "other", "near"},
          issuer : {"ok", "absent", "other"}, status : {"ok"}, sig : Sigs] \cup
         [kind : {"resp"}, entry : {"resp"}, version : {"ok", "absent", "wrong"}, dest : {"ok", "absent", "other", "near"},
-         issuer : {"ok", "absent", "other"}, status : {"ok", "nostatus", "nocode", "fail"}, sig : Sigs]
+         issuer : {"ok", "absent", "other"}, status : {"ok", "nostatus", "nocode", "fail", "nestfail"}, sig : Sigs]
 Confused == { x \in [kind : {"req", "resp", "sso"}, entry : {"req", "resp", "sso"}, version : {"ok"}, dest : {"ok"},
                      issuer : {"ok"}, status : {"ok"}, sig : {"none", "trusted"}] : x.kind # x.entry }
 Inputs == Same \cup Confused
@@ -40,7 +40,7 @@ FieldCheck(cfg, in) ==
    ELSE IF cfg.issuerCfg /\ in.issuer = "other" THEN E("ErrInvalidValue", "issuer")
    ELSE IF in.kind = "resp" /\ in.status = "nostatus" THEN E("ErrMissingElement", "status")
    ELSE IF in.kind = "resp" /\ in.status = "nocode" THEN E("ErrMissingElement", "statuscode")
-   ELSE IF in.kind = "resp" /\ in.status = "fail" THEN E("ErrInvalidValue", "statuscode")
+   ELSE IF in.kind = "resp" /\ in.status \in {"fail", "nestfail"} THEN E("ErrInvalidValue", "statuscode")
    ELSE NoErr
 
 Rej(e) == [res |-> "reject", flag |-> FALSE, fields |-> "none", err |-> e]
@@ -61,7 +61,7 @@ Viol(cfg, in) ==
    (IF cfg.issuerCfg /\ in.issuer = "other" THEN {V("ErrInvalidValue", {"issuer"})} ELSE {}) \cup
    (IF in.kind = "resp" /\ in.status = "nostatus" THEN {V("ErrMissingElement", {"status"})} ELSE {}) \cup
    (IF in.kind = "resp" /\ in.status = "nocode" THEN {V("ErrMissingElement", {"statuscode", "status"})} ELSE {}) \cup
-   (IF in.kind = "resp" /\ in.status = "fail" THEN {V("ErrInvalidValue", {"statuscode", "status"})} ELSE {})
+   (IF in.kind = "resp" /\ in.status \in {"fail", "nestfail"} THEN {V("ErrInvalidValue", {"statuscode", "status"})} ELSE {})
 Names(e) == { e.names[i] : i \in DOMAIN e.names }
 Matches(e, v) == e.cls = "typed" /\ e.type = v.type /\ Names(e) \cap v.names # {}
 \* the signature state lets field validation be reached
@@ -78,6 +78,8 @@ C10_OK(cfg, in, o) ==
    /\ (o.res = "accept" /\ ~cfg.skip) => (o.flag <=> in.sig = "trusted")
    \* C02: a root signature that names the root and does not verify is fatal
    /\ (~cfg.skip /\ in.sig \in {"untrusted", "tampered", "wrapSame", "relocated"}) => o.res = "reject"
+\* C02's clause on its own: a signature that names the root and does not verify is never downgraded to "unsigned"
+C02_OK(cfg, in, o) == (~cfg.skip /\ in.sig \in {"untrusted", "tampered", "wrapSame", "relocated"}) => o.res = "reject"
 C04_OK(cfg, in, o) == (o.res = "accept" /\ o.flag) => (~cfg.skip /\ in.sig = "trusted" /\ o.fields = "root")
 C09_OK(cfg, in, o) == o.res \in {"accept", "reject"}
 
